@@ -145,24 +145,7 @@ Proof.
   unfold blank, rad_kw. pyrunA. reflexivity.
 Qed.
 
-(* Angle(0, 0, s): s seconds of arc, |s| < 60 *)
 Ltac py_user_rw tac ::= rewrite reduce_deg_float.
-
-Lemma init_sec s : -60 < s < 60 -> mkA [VInt 0; VInt 0; VFloat s] = ang (s / 3600).
-Proof.
-  intros Hs. unfold mkA, blank, no_kw.
-  destruct (Rlt_dec s 0) as [N|N].
-  - assert (Rabs s = - s) as Ea by (apply Rabs_left; lra).
-    pyrunZ. unfold ang, angT, tol0. rewrite Ea. change (Z.abs 0 mod 360)%Z with 0%Z. change (Z.abs 0) with 0%Z.
-    Rlit_norm. rewrite red360_small.
-    + match goal with |- VObj _ [VFloat ?a; _] = _ => replace a with (s / 3600) by lra end. reflexivity.
-    + unfold Rabs. destruct (Rcase_abs _); lra.
-  - assert (Rabs s = s) as Ea by (apply Rabs_right; lra).
-    pyrunZ. unfold ang, angT, tol0. rewrite Ea. change (Z.abs 0 mod 360)%Z with 0%Z. change (Z.abs 0) with 0%Z.
-    Rlit_norm. rewrite red360_small.
-    + match goal with |- VObj _ [VFloat ?a; _] = _ => replace a with (s / 3600) by lra end. reflexivity.
-    + unfold Rabs. destruct (Rcase_abs _); lra.
-Qed.
 
 (* ---------------------------------------------------------------- operators, views *)
 Lemma add_ang a t b t' : Angle___add__ Rops (angT a t) (angT b t') = ang (red360 (a + b)).
